@@ -194,7 +194,7 @@ class Checker:
                        completed=completed_by_log, **info)
         return [u for u in listed if u in ids]
 
-    def resume(self, d, work, listed, fault, workers=0):
+    def resume(self, d, work, listed, fault, workers=0, trace=False):
         """I4/I5: sentinel the listed outputs, garble their inputs, re-run the same command, compare with the golden run"""
         import torch
 
@@ -208,14 +208,29 @@ class Checker:
             ip = os.path.join(d, "raw", "%s.%s" % (u, self.scn["containers"][idx]))
             saved_inputs[ip] = open(ip, "rb").read()
             open(ip, "wb").write(b"garbage that no reader can decode")
+        st = {"out": os.path.join(work, "resume_strace.txt")} if trace else None
         try:
-            rc, err = run_tool(self.scn, d, work, 0, "NONE", workers)
+            rc, err = run_tool(self.scn, d, work, 0, "NONE", workers, strace=st)
         finally:
             for ip, blob in saved_inputs.items():
                 open(ip, "wb").write(blob)
         self.rec.count("resumes")
         raw, files = read_state(work)
         info = dict(fault=fault, listed_before_resume=listed)
+        if st and os.path.exists(st["out"]):
+            # second, independent observation of "neither recomputed nor rewritten": the system calls of the resumed run
+            opened = set()
+            for l in open(st["out"]):
+                if "openat(" in l and '"' in l and " = -1" not in l:
+                    opened.add(l.split('"')[1])
+            self.rec.count("resumes_observed_with_strace")
+            for u in listed:
+                idx = self.scn["ids"].index(u)
+                ip = os.path.join(d, "raw", "%s.%s" % (u, self.scn["containers"][idx]))
+                op = os.path.join(work, "out", u + ".pt")
+                if ip in opened or op in opened:
+                    self.v("the resumed run opened %s of %r, which the manifest already listed (%s)" % ("the input" if ip in opened else "the feature file", u, fault),
+                           check="I5_opened", utt=u, **info)
         if rc != 0:
             self.v("the resumed run exited with %r after %s (stderr: %s)" % (rc, fault, err.strip().splitlines()[-1] if err.strip() else ""), check="I4_resume_exit", **info)
             return
@@ -306,7 +321,7 @@ def run_case(case, rec):
                         rec.count("two_fault_sequences")
                         fault += " + SIGKILL at event %d of the resumed run" % K2
                         listed = chk.after_fault(work, fault, None)
-                chk.resume(d, work, listed, fault, f.get("resume_workers", 0))
+                chk.resume(d, work, listed, fault, f.get("resume_workers", 0), trace=bool(f.get("trace")))
                 if 0 < done and len(listed) < U:
                     rec.nt((scn["idx"], "stmt", K, f["sig"], f.get("second"), f.get("workers", 0)))
             elif f["mech"] == "write":
@@ -393,7 +408,7 @@ def plan(tier, seed):
             continue
         faults = []
         for K in range(1, n + 1):
-            faults.append({"mech": "stmt", "K": K, "sig": "SIGKILL", "tag": "k%d" % K})
+            faults.append({"mech": "stmt", "K": K, "sig": "SIGKILL", "tag": "k%d" % K, "trace": (K % 8 == 3) if q else (K % 3 == 0)})
             faults.append({"mech": "stmt", "K": K, "sig": "SIGINT", "tag": "i%d" % K})
         for name, cnt in sorted(wc.items()):
             utt = "@manifest" if name == "man.txt" else name[:-3]
